@@ -928,6 +928,19 @@ func (m *Monitor) checkC08Mx(g *Gen, w []string, out string) {
 		if key == "" {
 			return
 		}
+		// every validator that runs a connector and is bonded has been asked several times what it has not signed yet: the hub
+		// must have offered it this transaction, so its confirmation is on record
+		for _, c := range mx.conns {
+			bonded := false
+			for _, v := range g.env.staking.vals {
+				if fmt.Sprintf("%x", []byte(v.addr)) == c.val && v.bonded {
+					bonded = true
+				}
+			}
+			if bonded && !gh.confs[key]["0x"+strings.ToLower(c.addr[2:])] {
+				m.report(g, "pending-transaction-never-offered-for-signing(minter)", fmt.Sprintf("%s (sequence %d = the multisig's next nonce) has no confirmation of bonded validator %s after several full turns of its connector", key, next, c.val))
+			}
+		}
 		confirmed := uint64(0)
 		for i, a := range mx.node.addrs {
 			if gh.confs[key]["0x"+strings.ToLower(a[2:])] {
